@@ -59,9 +59,6 @@ def run_spec(spec, repo_root=None, timeout=1500):
             shutil.rmtree(sc)
         os.makedirs(sc)
         subprocess.run(["rsync", "-a", "--exclude", "target", "--exclude", ".git", repo_root + "/", sc + "/repo/"], check=True)
-        # cargo's freshness check is mtime based and the target dir is shared between runs on different trees: give every source
-        # file of the scratch copy a fresh mtime so that no artifact built from another tree is reused
-        subprocess.run("find . -name '*.rs' -o -name '*.toml' -o -name '*.c' -o -name '*.h' | xargs touch", shell=True, cwd=os.path.join(sc, "repo"))
         tgt = os.path.join(sc, "repo", spec["crate_dir"], spec["inject_into"])
         if not os.path.exists(tgt):
             out["error"] = "file to inject into is missing: %s" % spec["inject_into"]
@@ -80,12 +77,16 @@ def run_spec(spec, repo_root=None, timeout=1500):
         cmd = ["cargo", "test", "--offline", "-p", spec["package"]] + spec["target"] + ["--", "--nocapture", "--test-threads", "1", spec["filter"]]
         out["cmd"] = "cd <scratch copy of the tree with `mod %s` (file %s) appended to %s/%s> && %s" % (
             spec["module"], spec["rs"], spec["crate_dir"], spec["inject_into"], " ".join(cmd))
-        # one build+run at a time per crate: the test binary's name does not depend on the scratch path, so two witnesses of
-        # the same crate sharing the target dir would overwrite each other's binary
+        # ONE build+run at a time in the shared target dir: cargo's unit hashes of workspace members do not depend on the scratch
+        # path, so every scratch copy shares one fingerprint (and every witness rebuilds proxy_agent_shared); the freshness check
+        # is mtime based, so every source file of the scratch copy gets a fresh mtime AFTER the lock is held - no artifact built
+        # from another tree (by a run that held the lock before us) can then be taken for fresh
         os.makedirs(env["CARGO_TARGET_DIR"], exist_ok=True)
-        clock = open(os.path.join(env["CARGO_TARGET_DIR"], "vxw.%s.lock" % spec["package"]), "w")
+        clock = open(os.path.join(env["CARGO_TARGET_DIR"], "vxw.target.lock"), "w")
         fcntl.flock(clock, fcntl.LOCK_EX)
         try:
+            time.sleep(1.1)   # mtime granularity: strictly newer than anything the previous holder wrote
+            subprocess.run("find . -name '*.rs' -o -name '*.toml' -o -name '*.c' -o -name '*.h' | xargs touch", shell=True, cwd=os.path.join(sc, "repo"))
             pr = subprocess.run(cmd, cwd=os.path.join(sc, "repo"), env=env, capture_output=True, text=True, timeout=timeout)
         finally:
             fcntl.flock(clock, fcntl.LOCK_UN)
